@@ -46,7 +46,8 @@ class Obj:
         self.external = external
         self.data = None     # bytes: list of None | (v,p) | ('ptr', Ptr, k)
         self.arr = None      # array: z3 Array(BV64 -> BV8)
-        self.overlay = None  # array: concrete-offset writes not yet flushed
+        self.overlay = None  # array: concrete-offset unguarded writes (fast path while wlog is empty)
+        self.wlog = None     # array: ordered list of (off, cells, guard) once a symbolic or guarded write happened
         self.base = None     # symbolic address of offset 0 (for ptrtoint), or int
         self.live = True
 
@@ -55,6 +56,7 @@ class Obj:
         o.data = list(self.data) if self.data is not None else None
         o.arr = self.arr
         o.overlay = dict(self.overlay) if self.overlay is not None else None
+        o.wlog = list(self.wlog) if self.wlog is not None else None
         o.base = self.base
         o.live = self.live
         return o
@@ -174,6 +176,7 @@ class Executor:
         else:
             o.arr = z3.Array('mem_%s' % (name or oid), z3.BitVecSort(64), z3.BitVecSort(8))
             o.overlay = {}
+            o.wlog = []
         st.objs[oid] = o
         st.owned.add(oid)
         return o
@@ -319,18 +322,7 @@ class Executor:
         if not o.live:
             st.oblige('ub:use-after-free', True, what)
         if o.kind == 'array':
-            if isinstance(off, int):
-                out = []
-                for k in range(n):
-                    a = (off + k) & M(64)
-                    if a in o.overlay:
-                        out.append(o.overlay[a])
-                    else:
-                        out.append((z3.Select(o.arr, z3.BitVecVal(a, 64)), False))
-                return out
-            self.flush(st, ptr.obj)
-            o = st.objs[ptr.obj]
-            return [(z3.Select(o.arr, off + k), False) for k in range(n)]
+            return [self.array_byte(o, sym.add(off, k, 64)) for k in range(n)]
         # bytes
         if isinstance(off, int):
             so = sym.sgn(off, 64)
@@ -369,15 +361,31 @@ class Executor:
             out.append(acc)
         return out
 
-    def flush(self, st, oid):
-        o = st.objs[oid]
-        if o.overlay:
-            o = st.wobj(oid)
-            arr = o.arr
-            for a, (v, p) in o.overlay.items():
-                arr = z3.Store(arr, z3.BitVecVal(a, 64), bv(v, 8))
-            o.arr = arr
-            o.overlay = {}
+    def array_byte(self, o, a):
+        """current byte of an external object at offset a (int or 64-bit term): initial contents overlaid by the writes so far"""
+        if isinstance(a, int):
+            a &= M(64)
+            if a in o.overlay:
+                v, p = o.overlay[a]
+            else:
+                v, p = z3.Select(o.arr, z3.BitVecVal(a, 64)), False
+        else:
+            v, p = z3.Select(o.arr, a), False
+            for ka, (kv, kp) in o.overlay.items():
+                c = a == z3.BitVecVal(ka, 64)
+                v, p = sym.ite(c, kv, v, 8), sym.b_ite(c, kp, p)
+        for woff, cells, g in o.wlog:
+            n = len(cells)
+            d = sym.nsimp(sym.sub(a, woff, 64))
+            if isinstance(d, int):
+                if d < n:
+                    cv, cp = cells[d]
+                    v, p = sym.ite(g, cv, v, 8), sym.b_ite(g, cp, p)
+                continue
+            for k in range(n):
+                c = b_and(g, d == z3.BitVecVal(k, 64))
+                v, p = sym.ite(c, cells[k][0], v, 8), sym.b_ite(c, cells[k][1], p)
+        return (v, p)
 
     def write_bytes(self, st, ptr, cells, guard=True, what='store'):
         """cells: list of (v,p); guard: bool cond under which the write happens"""
@@ -393,20 +401,14 @@ class Executor:
             st.oblige('ub:write-to-constant', guard, what)
             return
         if o.kind == 'array':
-            if isinstance(off, int) and guard is True:
+            for c in cells:
+                if isinstance(c[0], tuple):
+                    raise NotEncodable('pointer stored to caller memory')
+            if isinstance(off, int) and guard is True and not o.wlog:
                 for k, c in enumerate(cells):
                     o.overlay[(off + k) & M(64)] = c
                 return
-            self.flush(st, ptr.obj)
-            o = st.objs[ptr.obj]
-            arr = o.arr
-            for k, (v, p) in enumerate(cells):
-                a = sym.add(off, k, 64)
-                newv = bv(v, 8)
-                if guard is not True:
-                    newv = z3.If(guard, newv, z3.Select(arr, bv(a, 64)))
-                arr = z3.Store(arr, bv(a, 64), newv)
-            o.arr = arr
+            o.wlog.append((off, list(cells), guard))
             return
         if isinstance(off, int):
             so = sym.sgn(off, 64)
@@ -1115,18 +1117,62 @@ def _insertvalue(a, idx, e):
     return Agg(elems)
 
 
+def klz(x, w):
+    """number of leading zero bits that are known statically (cheap, syntactic)"""
+    if isinstance(x, int):
+        return w - x.bit_length()
+    try:
+        k = x.decl().kind()
+    except Exception:
+        return 0
+    if k == z3.Z3_OP_BNUM:
+        return w - x.as_long().bit_length()
+    ch = x.children()
+    if k == z3.Z3_OP_BAND:
+        return max(klz(c, w) for c in ch)
+    if k in (z3.Z3_OP_BOR, z3.Z3_OP_BXOR):
+        return min(klz(c, w) for c in ch)
+    if k == z3.Z3_OP_ZERO_EXT:
+        n = x.params()[0]
+        return n + klz(ch[0], w - n)
+    if k == z3.Z3_OP_BLSHR and z3.is_bv_value(ch[1]):
+        return min(w, klz(ch[0], w) + ch[1].as_long())
+    if k == z3.Z3_OP_ITE:
+        return min(klz(ch[1], w), klz(ch[2], w))
+    if k == z3.Z3_OP_CONCAT:
+        n = 0
+        for c in ch:
+            cw = c.size()
+            z = klz(c, cw)
+            n += z
+            if z < cw:
+                break
+        return n
+    return 0
+
+
+def _sign(x, w):
+    return z3.Extract(w - 1, w - 1, bv(x, w))
+
+
 def _add_sov(x, y, w):
     if isinstance(x, int) and isinstance(y, int):
         s = sym.sgn(x, w) + sym.sgn(y, w)
         return not (-(1 << (w - 1)) <= s < (1 << (w - 1)))
-    return z3.Not(z3.And(z3.BVAddNoOverflow(bv(x, w), bv(y, w), True), z3.BVAddNoUnderflow(bv(x, w), bv(y, w))))
+    if klz(x, w) >= 2 and klz(y, w) >= 2:
+        return False
+    r = bv(x, w) + bv(y, w)
+    return z3.And(_sign(x, w) == _sign(y, w), _sign(r, w) != _sign(x, w))
 
 
 def _sub_sov(x, y, w):
     if isinstance(x, int) and isinstance(y, int):
         s = sym.sgn(x, w) - sym.sgn(y, w)
         return not (-(1 << (w - 1)) <= s < (1 << (w - 1)))
-    return z3.Not(z3.And(z3.BVSubNoOverflow(bv(x, w), bv(y, w)), z3.BVSubNoUnderflow(bv(x, w), bv(y, w), True)))
+    if klz(x, w) >= 1 and klz(y, w) >= 1:
+        return False
+    r = bv(x, w) - bv(y, w)
+    return z3.And(_sign(x, w) != _sign(y, w), _sign(r, w) != _sign(x, w))
 
 
 def _mul_ov(x, y, w, signed):
@@ -1135,6 +1181,13 @@ def _mul_ov(x, y, w, signed):
             s = sym.sgn(x, w) * sym.sgn(y, w)
             return not (-(1 << (w - 1)) <= s < (1 << (w - 1)))
         return x * y > M(w)
+    kx, ky = klz(x, w), klz(y, w)
     if signed:
-        return z3.Not(z3.And(z3.BVMulNoOverflow(bv(x, w), bv(y, w), True), z3.BVMulNoUnderflow(bv(x, w), bv(y, w))))
-    return z3.Not(z3.BVMulNoOverflow(bv(x, w), bv(y, w), False))
+        if kx >= 1 and ky >= 1 and kx + ky >= w + 1:
+            return False
+        p = z3.SignExt(w, bv(x, w)) * z3.SignExt(w, bv(y, w))
+        return p != z3.SignExt(w, z3.Extract(w - 1, 0, p))
+    if kx + ky >= w:
+        return False
+    p = z3.ZeroExt(w, bv(x, w)) * z3.ZeroExt(w, bv(y, w))
+    return z3.Extract(2 * w - 1, w, p) != 0
